@@ -1322,7 +1322,10 @@ def c10(ix: Index) -> None:
                         enclosing_fired = True
             if enclosing_fired and res is not None and res['status'] == 'error' and res['err'] == 'CancelledError':
                 pass
-            elif x is not None and x['out'] == 'cancel' or ended is None or ended > deadline + 1e-3:
+            elif x is not None and x['out'] == 'cancel' or ended is None or ended > deadline + blocked + 1e-3:
+                # (same allowance as in (a): blocking sync code that held the loop across the deadline delays both the handler's own
+                # wake-up and the timer; a handler whose work was due before the deadline and that returned as soon as the loop ran
+                # again finished in time)
                 ix.v('C10', 'result-not-timeout-error', None, ev=i['ev'], h=i['h'], result=res)
     # a handler that raises TimeoutError itself (its own wait_for, a child's error re-raised) goes through the same library path
     raised_te = [inv for inv, x in ix.exit.items() if x['out'] == 'raise' and x['et'] == 'TimeoutError']
